@@ -9,11 +9,11 @@ package main
 // A report is a concrete mixture of two different units.
 
 import (
-	"go/constant"
-	"reflect"
 	"fmt"
+	"go/constant"
 	"go/token"
 	"go/types"
+	"reflect"
 	"sort"
 	"strings"
 
@@ -76,7 +76,7 @@ var resultUnits = map[string]unit{
 	"bytes.Index": uByte, "bytes.IndexByte": uByte,
 	"unicode/utf8.RuneCountInString": uRune, "unicode/utf8.RuneCount": uRune, "unicode/utf8.RuneLen": uByte,
 	"lsputil.UTF16Len": uUTF16, "lsputil.ByteOffsetToUTF16": uUTF16, "lsputil.UTF16OffsetToByteOffset": uByte,
-	"lsputil.RuneCount": uRune,
+	"lsputil.RuneCount":                   uRune,
 	"lsputil.PositionMapper.LineUTF16Len": uUTF16, "lsputil.PositionMapper.LineRuneLen": uRune, "lsputil.PositionMapper.LSPToByte": uByte,
 }
 
@@ -98,18 +98,18 @@ type unitReport struct {
 }
 
 type unitsEngine struct {
-	p       *Prog
-	funcs   []*ssa.Function
-	val     map[ssa.Value]unit
-	fieldU  map[string]unit // inferred units of undeclared fields
-	retU    map[*ssa.Function]unit
-	paramU  map[*ssa.Parameter]unit
-	reports map[string]unitReport
-	nArith  int
-	nStores int
-	nArgs   int
-	nIndex  int
-	nCtor   map[string]int
+	p        *Prog
+	funcs    []*ssa.Function
+	val      map[ssa.Value]unit
+	fieldU   map[string]unit // inferred units of undeclared fields
+	retU     map[*ssa.Function]unit
+	paramU   map[*ssa.Parameter]unit
+	reports  map[string]unitReport
+	nArith   int
+	nStores  int
+	nArgs    int
+	nIndex   int
+	nCtor    map[string]int
 	okChecks []unitReport // consistent constructs (discharged obligations)
 }
 
